@@ -130,12 +130,12 @@ ADV = {
 }
 
 
-def adversarial_names(P, rng, strength=0.7):
+def adversarial_names(P, rng, strength=0.7, keywords=True):
     """a consistent renaming of P to adversarial identifiers; names stay pairwise distinct (unified-planning
     rejects two items with one name) but may collide after lower-casing / symbol replacement."""
     used = set()
     table = {}
-    pool = ADV["kw"] + ADV["upper"] + ADV["digit"] + ADV["symbol"]
+    pool = (ADV["kw"] if keywords else []) + ADV["upper"] + ADV["digit"] + ADV["symbol"]
 
     def pick(kind, name):
         key = (kind, name)
@@ -379,6 +379,16 @@ class GenAI(Gen):
             a["pre"] = [self.bool_expr(self.r.choice([0, 1]), params, {})]
         return a
 
+    def problem(self):
+        P = Gen.problem(self)
+        # the third-party PROBLEM parser accepts neither or / imply / quantifiers / = in goals (it never sees the
+        # declared requirements): conjunctive goals over literals and numeric comparisons
+        keep = dict(self.o)
+        self.o.update(disjunction=False, quantifiers=False, equality=False, implies=False)
+        P["goals"] = [self.bool_expr(1, {}, {}) for _ in range(self.r.randint(1, 2))]
+        self.o = keep
+        return P
+
 
 def _writable_metric(g, P):
     # PDDL has no oversubscription metric (the writer raises NotImplementedError): generator restriction
@@ -435,7 +445,8 @@ def make_corpus(rng, counts):
     for i in range(counts["ai"]):
         g = g_cls if i % 2 else g_ai
         P = _writable_metric(g, _gen(g, i))
-        out.append(("ai", adversarial_names(P, rng, 0.5) if i % 3 == 0 else P))
+        # (the third-party parser rejects every identifier that is a keyword of its grammar: none here)
+        out.append(("ai", adversarial_names(P, rng, 0.5, keywords=False) if i % 3 == 0 else P))
     for i in range(counts["bnd"]):
         P = _gen(g_bnd, i)
         if not _bounded(P):
@@ -886,7 +897,7 @@ def _preimport():
 def run(ctx):
     q = ctx.quick
     _preimport()
-    counts = dict(num=22, ai=18, bnd=8, tmp=20) if q else dict(num=260, ai=200, bnd=60, tmp=200)
+    counts = dict(num=20, ai=22, bnd=8, tmp=18) if q else dict(num=240, ai=240, bnd=60, tmp=180)
     D = 3 if q else 4
     L = 3 if q else 5
     k = 4 if q else 6
